@@ -372,4 +372,34 @@ theorem nodeOut_perm : NodeOutPermStmt := by
     have hb : (e1.get b).Perm (e2.get b) := h b (List.mem_cons_of_mem _ List.mem_cons_self)
     exact pair_perm (cartOut_perm ha hb).1 (cartOut_perm ha hb).2 j
 
+/-! ## the hypotheses are satisfiable on a non-trivial input (dot node, first port permuted) -/
+
+section NonVacuous
+
+private def exA : Env :=
+  ⟨fun q => if q = 0 then [⟨[0, 1], .int 5⟩, ⟨[0, 0], .int 7⟩] else if q = 1 then [⟨[0], .int 2⟩] else []⟩
+private def exB : Env :=
+  ⟨fun q => if q = 0 then [⟨[0, 0], .int 7⟩, ⟨[0, 1], .int 5⟩] else if q = 1 then [⟨[0], .int 2⟩] else []⟩
+
+private theorem exPerm : EnvPermOn (Node.dot [0, 1] [2, 3]).ins exA exB := by
+  intro q hq
+  simp only [Node.ins, List.mem_cons, List.not_mem_nil, or_false] at hq
+  rcases hq with rfl | rfl
+  · exact List.Perm.swap _ _ _
+  · exact List.Perm.refl _
+
+private theorem exOk : NodeInputsOk exA (Node.dot [0, 1] [2, 3]) := by
+  constructor
+  · intro q hq
+    simp only [Node.ins, List.mem_cons, List.not_mem_nil, or_false] at hq
+    rcases hq with rfl | rfl <;> simp [DistinctTags, exA]
+  · intro _ q hq
+    simp only [Node.ins, List.mem_cons, List.not_mem_nil, or_false] at hq
+    rcases hq with rfl | rfl <;> simp [Antichain, exA]
+
+example (j : Nat) : ((nodeOut exA (Node.dot [0, 1] [2, 3]))[j]?.getD []).Perm
+    ((nodeOut exB (Node.dot [0, 1] [2, 3]))[j]?.getD []) := nodeOut_perm _ _ _ exPerm exOk j
+
+end NonVacuous
+
 end SFV.Net
